@@ -23,7 +23,6 @@ import (
 	"bytes"
 	"crypto/sha256"
 	"encoding/binary"
-	"encoding/hex"
 	"errors"
 	"fmt"
 	"sort"
@@ -1099,6 +1098,8 @@ func (d *drv) runVerifyCase(k kase) {
 
 func TestDriver(t *testing.T) {
 	rep := vh.NewReport()
+	// bin/check iterates over these lists: they must be JSON arrays even when empty
+	rep.Violations, rep.Inconclusive, rep.Samples = []vh.Violation{}, []string{}, []any{}
 	defer func() {
 		if err := rep.Write(); err != nil {
 			t.Fatalf("report: %v", err)
@@ -1118,13 +1119,6 @@ func TestDriver(t *testing.T) {
 		d.chains[cr.C] = d.buildChain(cr)
 	}
 	rep.Set("chains", len(d.chains))
-	rep.Set("key_addresses", func() map[int]string {
-		m := map[int]string{}
-		for i, a := range d.addr {
-			m[i] = hex.EncodeToString(a)
-		}
-		return m
-	}())
 
 	jobs := make(chan kase, 256)
 	var wg sync.WaitGroup
